@@ -47,6 +47,22 @@ func (r *resendContext) later(msg MessagePlaintext, opaque ...interface{}) {
 	r.messages.m = append(r.messages.m, messageToResend{makeCopy(msg), opaque})
 }
 
+// last remembers msg as the only message that may still be resent: only the
+// most recent message can be asked for again, so the ones before it are dropped
+func (r *resendContext) last(msg MessagePlaintext) {
+	if r.retransmitting {
+		return
+	}
+
+	r.messages.Lock()
+	defer r.messages.Unlock()
+
+	for i := range r.messages.m {
+		wipeBytes(r.messages.m[i].m)
+	}
+	r.messages.m = []messageToResend{{makeCopy(msg), nil}}
+}
+
 func (r *resendContext) pending() []messageToResend {
 	r.messages.RLock()
 	defer r.messages.RUnlock()
